@@ -340,6 +340,13 @@ def run(ctx):
     from . import c01
 
     share_rule(ctx, "C01", c01.check_embedding_paths, "C06-D6 numeric-symbolic-embedding-agree")
+    # the matrix of a wrapper is a fixed matrix function (adjoint, power, exp, block embedding) of the wrapped gate's matrix and
+    # nothing else: a wrapper that also rewrites symbols in it (a substitution, an assumption) evaluates differently before and
+    # after binding -- the matrix idioms are decided once, by C07-D3
+    from . import c07
+
+    share_rule(ctx, "C07", c07.check_matrices, "C06-D8 wrapper-matrices")
+    ctx.floor("C06-D8", 4)
     ctx.floor("C06-D6", 6)
     ctx.floor("C06-D1", 2)
     ctx.floor("C06-D2", 14)
